@@ -4,7 +4,7 @@ from __future__ import annotations
 import ast
 from typing import Dict, List, Optional, Set, Tuple
 
-from ..core import AnalysisError, ClassInfo, FuncInfo, Index, call_name, calls_in, dotted, is_self_attr, norm, walk_local
+from ..core import AnalysisError, ClassInfo, FuncInfo, Index, call_name, calls_in, dotted, is_self_attr, norm, param_names, walk_local
 
 CHANGE_BASE = "rope.base.change.Change"
 
@@ -257,3 +257,101 @@ def prefix_boundary_rule(ctx, res, rule: str, sites: List[str]) -> None:
         if k == 0:
             raise AnalysisError(f"anchor={fq}: no startswith test on a computed prefix (the table in sa/rules/common.py is stale)")
     res.floor(rule, "hierarchical prefix tests", n, len(sites))
+
+
+# who wins when several sources provide the same name: a fact of the language, per site
+MERGE_PRECEDENCE_SITES = {
+    "rope.base.pyobjectsdef.PyModule._create_concluded_attributes": ("last", "star_imports", "a later `from m import *` rebinds the names of an earlier one"),
+    "rope.base.pyobjectsdef.PyClass._create_concluded_attributes": ("first", "get_superclasses", "attribute lookup takes the first base class that has the name"),
+}
+
+
+def merge_precedence_rule(ctx, res, rule: str, sites=None) -> None:
+    """Shared by C01/C02/C15: where name tables of several sources are merged into one dict, the merge discipline
+    (update / item store = later wins;  ChainMap / setdefault / `not in` guard = earlier wins) times the iteration order
+    over the sources must give the winner the language prescribes."""
+    from .c10 import _iter_discipline
+    import copy
+
+    idx = ctx.idx
+    n = 0
+    for fq, (winner, src_name, reason) in sorted((sites or MERGE_PRECEDENCE_SITES).items()):
+        f = idx.need_func(fq)
+        n += 1
+        short = fq.split(".", 3)[-1]
+        disc = order = None
+        where = f.where
+        # (a) explicit loop over the sources with a merge in its body
+        for lp in [x for x in walk_local(f.node) if isinstance(x, ast.For)]:
+            if not any((isinstance(y, ast.Attribute) and y.attr == src_name) or (isinstance(y, ast.Call) and call_name(y) == src_name) for y in ast.walk(lp.iter)):
+                continue
+            where = f"{f.unit.rel}:{lp.lineno}"
+
+            class _Sub(ast.NodeTransformer):
+                def visit_Attribute(self, node):
+                    return ast.Name(id="__src__", ctx=ast.Load()) if node.attr == src_name else self.generic_visit(node)
+
+                def visit_Call(self, node):
+                    return ast.Name(id="__src__", ctx=ast.Load()) if call_name(node) == src_name else self.generic_visit(node)
+
+            it = _Sub().visit(copy.deepcopy(lp.iter))
+            order = _iter_discipline(ast.For(target=lp.target, iter=it, body=lp.body, orelse=[]), "__src__")
+            body_calls = [c for s_ in lp.body for c in ([s_.value] if isinstance(s_, ast.Expr) and isinstance(s_.value, ast.Call) else []) + calls_in(s_)]
+            if any(isinstance(c.func, ast.Attribute) and c.func.attr == "update" for c in body_calls):
+                disc = "later"
+            if any(isinstance(c.func, ast.Attribute) and c.func.attr == "setdefault" for c in body_calls) or \
+                    any(isinstance(y, ast.Compare) and isinstance(y.ops[0], ast.NotIn) for s_ in lp.body for y in ast.walk(s_)):
+                disc = "earlier"
+        # (b) ChainMap(*(… for x in sources)) / {k: v for x in sources for k, v in …}
+        if disc is None:
+            for c in calls_in(f.node):
+                if call_name(c) == "ChainMap":
+                    disc = "earlier"
+                    gens = [g for y in ast.walk(c) if isinstance(y, (ast.GeneratorExp, ast.ListComp)) for g in y.generators]
+                    if gens:
+                        it = gens[0].iter
+                        order = "backward" if isinstance(it, ast.Call) and call_name(it) == "reversed" else "forward"
+                        where = f"{f.unit.rel}:{c.lineno}"
+            for y in walk_local(f.node):
+                if isinstance(y, ast.DictComp) and len(y.generators) >= 2:
+                    disc = "later"
+                    it = y.generators[0].iter
+                    order = "backward" if isinstance(it, ast.Call) and call_name(it) == "reversed" else "forward"
+                    where = f"{f.unit.rel}:{y.lineno}"
+        if disc is None or order is None:
+            res.undecided(rule, f"{short}|precedence", where, f"merge shape not recognised (discipline={disc}, order={order})")
+            continue
+        got = "last" if (disc, order) in (("later", "forward"), ("earlier", "backward")) else "first"
+        ok = got == winner
+        res.add(rule, f"{short}|precedence", ok, where,
+                f"on a name clash the {winner} source wins ({disc}-wins merge, {order} iteration)" if ok else
+                f"{short} merges the name tables so that the {got.upper()} source wins a clash ({disc}-wins merge, {order} iteration) but {reason}: a name "
+                "provided by two sources resolves to the wrong definition, so rename/find-occurrences follow a different binding than the interpreter",
+                function=f.qualname, reason=reason)
+    res.floor(rule, "name-table merges with a prescribed winner", n, 2)
+
+
+def module_search_order_rule(ctx, res, rule: str) -> None:
+    """Shared by C01/C02/C13: an absolute module name is looked up on the search path (source folders, then the python
+    path) BEFORE the importing module's own folder -- the interpreter never searches the importer's folder at all."""
+    from ..cfg import CFG
+
+    idx = ctx.idx
+    f = idx.need_func("rope.base.project._Project.find_module")
+    cfg = CFG(f.node)
+    ps = param_names(f.node)
+    folder_p = ps[2] if len(ps) > 2 else None
+    own = [nd for nd in cfg.nodes if nd.kind == "stmt" and nd.ast is not None and any(
+        c.args and isinstance(c.args[0], ast.Name) and c.args[0].id == folder_p for c in calls_in(nd.ast) if call_name(c).startswith("_find_module"))]
+    if not own or folder_p is None:
+        raise AnalysisError("anchor=_Project.find_module: lookup in the importing module's folder not found")
+    for k, src in enumerate(("get_source_folders", "get_python_path_folders"), 1):
+        is_loop = lambda nd, src=src: nd.kind == "loop" and isinstance(nd.ast, ast.For) and any(isinstance(c, ast.Call) and call_name(c) == src for c in ast.walk(nd.ast.iter))
+        if not any(is_loop(nd) for nd in cfg.nodes):
+            raise AnalysisError(f"anchor=_Project.find_module: loop over {src}() not found")
+        ok = all(cfg.must_pass_through(cfg.entry.id, nd.id, is_loop) for nd in own)
+        res.add(rule, f"find_module|{src}-before-own-folder", ok, f"{f.unit.rel}:{own[0].lineno}",
+                f"the importing module's folder is consulted only after {src}()" if ok else
+                f"_Project.find_module looks into the importing module's own folder before {src}(): inside a package, `import utils` resolves to the "
+                "sibling pkg/utils.py although the interpreter imports the top-level (or standard-library) utils, so occurrences are attributed to the wrong module",
+                function=f.qualname)
